@@ -103,7 +103,7 @@ def run_property(pid, build, tier="quick", seed=0, budget_ms=None, thorough_extr
     errors = [o for o in obls if o.result == "error"]
     for o in errors: disagreements.append(f"solver worker crashed on {o.oid}: {o.detail[-300:]}")
     # group refuted obligations by (function, kind-name) so one defect gives one replay
-    seen_groups = {}
+    seen_groups = {}; history_cache = {}
     for o in real:
         if o.result == "undecided": undecided.append((o.oid, o.detail)); continue
         if o.result != "refuted": continue
@@ -116,6 +116,17 @@ def run_property(pid, build, tier="quick", seed=0, budget_ms=None, thorough_extr
         if o.meta.get("replay"):
             try: replay = rt_call(pid, o.meta["replay"], {"witness": o.model, "obligation": o.oid})
             except Exception as ex: replay = {"error": repr(ex)}
+        if o.meta.get("overapprox") and not (replay and replay.get("violated")):
+            # the path read a field the contract's view does not constrain (any stored kind of value was assumed): the model counts only
+            # if a history through the public interface of the real code shows the same clause failing
+            hk = (o.meta.get("history_replay", "history_search"), tuple(o.meta["overapprox"]))
+            if hk not in history_cache:
+                try: history_cache[hk] = rt_call(pid, hk[0], {"obligation": o.oid, "fields": list(hk[1]), "seed": seed}, timeout=600)
+                except Exception as ex: history_cache[hk] = {"error": repr(ex)}
+            replay = history_cache[hk]
+            if not (replay and replay.get("violated")):
+                undecided.append((o.oid, f"over-approximated field(s) {o.meta['overapprox']}: no history of the real code reproduces the model; obligation stays undecided ({str(replay)[:160]})"))
+                del seen_groups[key]; continue
         rec["replay_on_real_code"] = replay
         k = known_match(pid, o.oid, o.model, known)
         if replay and replay.get("violated") is False and isinstance(o.model, dict) and o.model.get("relaxed_candidate"):
